@@ -44,6 +44,21 @@ def run(ctx):
             if 'ERR' in d or d.get('starts', [[]])[0] != want_s or d.get('ends', [[]])[0] != want_e or d.get('weights', [[]])[0] != want_w:
                 ctx.violation('parse', 'read_adjacency_data does not return the records of a well-formed file (layout %s)' % style,
                               {'case': pcases[k], 'file': bytes.fromhex(pcases[k].split()[2]).decode('latin-1'), 'expected_records': recs[:20]})
+    # ---- K-WRITE(unit): the two templated writers called in process on random values vs the model's token grids
+    ucases = []
+    for k in range(ctx.budget(150, 4000)):
+        sub = rng.fork('wu%d' % k)
+        def val():
+            return sub.choice([0.0, sub.unit(), sub.unit() * 1e-5, 123456.789 * sub.unit(), 1e-7, 1.5, 2.0, 0.000123456789, 9999999.0, 1e21 * sub.unit()])
+        if k % 2:
+            N, K = sub.rint(1, 6), sub.rint(1, 5)
+            labs = gen.make_labels(sub, N, 'u')
+            ucases.append('WMEM %d %d %d %s %s' % (900000 + k, N, K, ' '.join(labs), ' '.join(vf.fhex(val()) for _ in range(N * K))))
+        else:
+            K, L, assort = sub.rint(1, 5), sub.rint(1, 4), sub.below(2)
+            n = K * L if assort else K * K * L
+            ucases.append('WAFV %d %d %d %d %s' % (900000 + k, K, L, assort, ' '.join(vf.fhex(val()) for _ in range(n))))
+    ctx.component('K-WRITE(unit)', ucases)
     # ---- K-WRITE: the real binary
     wd = vf.workdir()
     metas = []
